@@ -24,11 +24,40 @@ type Case struct {
 	// FailKind 1: the failing statement violates a foreign key (the journal references itself, the URL carries _fk=1):
 	// without a transaction the statement fails at once, inside one the violation is found when the file's transaction commits.
 	FailKind int `json:"fail_kind,omitempty"`
+	// Ckpt: 0-based indexes of the files that are checkpoints. A fresh database starts at the last one (which creates the
+	// journal itself, IF NOT EXISTS, as its first statement); the files before it never run and are never recorded.
+	Ckpt []int `json:"ckpt,omitempty"`
+}
+
+func (c Case) isCk(f int) bool {
+	for _, k := range c.Ckpt {
+		if k == f {
+			return true
+		}
+	}
+	return false
+}
+
+// first is the index of the first file that takes part in a run on a fresh database.
+func (c Case) first() int {
+	l := 0
+	for _, k := range c.Ckpt {
+		if k > l {
+			l = k
+		}
+	}
+	return l
 }
 
 func id(f, j int) int { return (f+1)*10 + j + 1 }
 
-func stmt(f, j int, failing bool, kind int) string {
+func stmt(f, j int, failing bool, kind int, ck bool) string {
+	if ck && j == 0 {
+		if failing {
+			return "CREATE TABLE journal (id integer, id integer);\n" // fails: duplicate column name
+		}
+		return "CREATE TABLE IF NOT EXISTS journal (id integer);\n"
+	}
 	if f == 0 && j == 0 {
 		if failing {
 			return "CREATE TABLE journal (id integer, id integer);\n" // fails: duplicate column name
@@ -52,8 +81,11 @@ func (c Case) file(f int, fixed bool) string {
 	if f < len(c.Directives) && c.Directives[f] != "" {
 		b.WriteString("-- atlas:txmode " + c.Directives[f] + "\n\n")
 	}
+	if c.isCk(f) {
+		b.WriteString("-- atlas:checkpoint\n\n")
+	}
 	for j := 0; j < c.Shape[f]; j++ {
-		b.WriteString(stmt(f, j, !fixed && f == c.FailF && j == c.FailJ, c.FailKind))
+		b.WriteString(stmt(f, j, !fixed && f == c.FailF && j == c.FailJ, c.FailKind, c.isCk(f)))
 	}
 	return b.String()
 }
@@ -132,11 +164,12 @@ func readCanon(path string) (canon, error) {
 // expected computes the state the documented semantics prescribe after the (possibly failing) run.
 func (c Case) expected() canon {
 	var out canon
+	first := c.first()
 	limit := len(c.Shape)
-	if c.Count > 0 && c.Count < limit {
-		limit = c.Count
+	if c.Count > 0 && first+c.Count < limit {
+		limit = first + c.Count
 	}
-	failing := c.FailF >= 0 && c.FailF < limit
+	failing := c.FailF >= first && c.FailF < limit
 	out.HasRevs = true
 	rev := func(f, applied int, e bool) {
 		out.Revs = append(out.Revs, fmt.Sprintf("%d:%d/%d:err=%v", f+1, applied, c.Shape[f], e))
@@ -144,7 +177,7 @@ func (c Case) expected() canon {
 	journalExists := false
 	addFile := func(f, upto int) {
 		for j := 0; j < upto; j++ {
-			if f == 0 && j == 0 {
+			if f == 0 && j == 0 || c.isCk(f) && j == 0 {
 				journalExists = true
 				continue
 			}
@@ -152,14 +185,14 @@ func (c Case) expected() canon {
 		}
 	}
 	if !failing {
-		for f := 0; f < limit; f++ {
+		for f := first; f < limit; f++ {
 			addFile(f, c.Shape[f])
 			rev(f, c.Shape[f], false)
 		}
 	} else if c.Mode == "all" {
 		// exactly as before the command
 	} else {
-		for f := 0; f < c.FailF; f++ {
+		for f := first; f < c.FailF; f++ {
 			addFile(f, c.Shape[f])
 			rev(f, c.Shape[f], false)
 		}
@@ -230,11 +263,11 @@ func checkCase(c Case) (Outcome, error) {
 	r1 := sb.Run(args...)
 	want := c.expected()
 	limit := len(c.Shape)
-	if c.Count > 0 && c.Count < limit {
-		limit = c.Count
+	if c.Count > 0 && c.first()+c.Count < limit {
+		limit = c.first() + c.Count
 	}
-	failing := c.FailF >= 0 && c.FailF < limit
-	out.Fired = failing && (c.FailF > 0 || c.FailJ > 0)
+	failing := c.FailF >= c.first() && c.FailF < limit
+	out.Fired = failing && (c.FailF > c.first() || c.FailJ > 0)
 	got, err := readCanon(dbp)
 	if err != nil {
 		return out, fmt.Errorf("harness: %v", err)
